@@ -115,7 +115,8 @@ pub fn run_all(ctx: &mut Ctx, stream: &str) {
 			SkipOrders, Vec<SkipOrders>, Option<SkipOrders>,
 			OneAndSkipped, Vec<OneAndSkipped>, [OneAndSkipped; 3], VecDeque<OneAndSkipped>, Box<OneAndSkipped>, OneAligned, Vec<OneAligned>, [OneAligned; 2],
 			MixedDisc, Vec<MixedDisc>, (MixedDisc,), Box<MixedDisc>, [MixedDisc; 4], BigGen<u8>, BigGen<u64>, Vec<BigGen<u8>>, Option<BigGen<u64>>,
-			TrailingComma, Vec<TrailingComma>, TrailingCommaE, Option<TrailingCommaE>, TailEmpty, TailEmptyE, IdxEnum);
+			TrailingComma, Vec<TrailingComma>, TrailingCommaE, Option<TrailingCommaE>, TailEmpty, TailEmptyE, IdxEnum, LitIndex, Vec<LitIndex>);
+		nomem!(ctx, stream, f; NonPathAs, Vec<NonPathAs>, SingleNonPathAs, Box<SingleNonPathAs>);
 		return;
 	}
 	small!(ctx, stream, f; (), bool, OptionBool, u8, i8, Option<bool>, Result<bool, bool>, Compact<u8>, Compact<u16>,
@@ -161,6 +162,7 @@ pub fn run_all(ctx: &mut Ctx, stream: &str) {
 		[Compact<u128>; 2], Box<Compact<u128>>, [Compact<u64>; 2], Rc<Compact<u32>>, [Compact<u16>; 3], Arc<Compact<u8>>, Box<[Compact<u128>; 1]>,
 		TailEmpty, Box<TailEmpty>, TailEmptyE, Vec<TailEmptyE>, (u8, TailEmpty),
 		TrailingComma, Vec<TrailingComma>, TrailingCommaE, Option<TrailingCommaE>,
+		LitIndex, Vec<LitIndex>, [LitIndex; 4], Option<LitIndex>, LinkedList<Range<Duration>>, BTreeMap<u8, RangeInclusive<Duration>>, LinkedList<[u32; 2]>, BTreeMap<u8, Range<u64>>,
 		// user-defined wrappers relying on the provided `decode_wrapped` (the model's `wrap`)
 		UserWrap<u32>, UserWrap<Vec<u8>>, Vec<UserWrap<u16>>, UserWrap<UserWrap<Box<u8>>>, Box<UserWrap<()>>, UNode, Option<SharedNode>, [UserWrap<u8>; 3],
 		(UserWrap<String>, u8), Vec<UNode>,
@@ -221,6 +223,9 @@ pub fn run_all(ctx: &mut Ctx, stream: &str) {
 	#[cfg(feature = "bytes-f")]
 	{
 		plain!(ctx, stream, f; bytes::Bytes, Option<bytes::Bytes>, Vec<bytes::Bytes>, (u8, bytes::Bytes), (bytes::Bytes, u32), (bytes::Bytes, bytes::Bytes), [bytes::Bytes; 3], Vec<(bytes::Bytes, u8)>);
+	}
+	if stream != "mem" {
+		nomem!(ctx, stream, f; NonPathAs, Vec<NonPathAs>, SingleNonPathAs, Box<SingleNonPathAs>, (u8, NonPathAs));
 	}
 	#[cfg(feature = "garray-f")]
 	{
